@@ -328,7 +328,16 @@ func runSolver(ctx context.Context, s SolverCfg, file string, timeoutMs int) (st
 	_ = cmd.Run()
 	ms := time.Since(t0).Milliseconds()
 	text := out.String()
-	first := strings.TrimSpace(strings.SplitN(text, "\n", 2)[0])
+	// the verdict is the first line that is not a solver warning (z3 warns about unusable patterns)
+	first := ""
+	for _, l := range strings.Split(text, "\n") {
+		l = strings.TrimSpace(l)
+		if l == "" || strings.HasPrefix(l, "WARNING") {
+			continue
+		}
+		first = l
+		break
+	}
 	switch first {
 	case "unsat", "sat", "unknown":
 		return first, text, ms
